@@ -110,6 +110,8 @@ def coin_params():
             bch_p2sh.add((p["p2sh_std_hrp"], p["p2sh_std_net_ver"]))
     P["p2pkh_net_ver"] |= {b"\x6f", b"\x1c\xb8"}
     P["ss58_format"] |= {1, 63, 64, 255, 16383}
+    for k in ("p2wpkh_hrp", "p2tr_hrp", "addr_hrp"):
+        P[k] |= {"a1b", "test1net"}          # the separator is the LAST '1': a human-readable part may contain the character
     out = {k: sorted(v) for k, v in P.items()}
     out["bch_p2pkh"], out["bch_p2sh"] = sorted(bch_p2pkh), sorted(bch_p2sh)
     return out
